@@ -176,7 +176,9 @@ inductive WireFunc | newT | clone | enableHTTP3
   deriving DecidableEq, Repr
 
 /-- One construction site of a stack: `<owner>.t2 = &h2internal.Transport{Options: &<x>.Options}`
-or `t3 := &http3.RoundTripper{Options: &<x>.Options}; <owner>.t3 = t3`. -/
+or `t3 := &http3.RoundTripper{Options: &<x>.Options}; <owner>.t3 = t3` (`sameOwner`: `<x>` is
+`<owner>`); for `⟨.clone, .h3, _⟩`: the call `<y>.EnableHTTP3()` in `Transport.Clone`
+(`sameOwner`: `<y>` is the clone). -/
 structure WireSite where
   func : WireFunc
   stack : Stack
@@ -202,7 +204,8 @@ somebody else's options leaves the stack pointing at the ORIGINAL's. -/
 def cloneWiring (facts : List WireSite) (w : Wiring) (fresh : Nat) : Wiring :=
   { own := fresh
     t2 := if wireOK facts .clone .h2 then fresh else w.own
-    t3 := w.t3.map fun _ => if wireOK facts .enableHTTP3 .h3 then fresh else w.own }
+    t3 := w.t3.map fun _ =>
+      if wireOK facts .clone .h3 && wireOK facts .enableHTTP3 .h3 then fresh else w.own }
 
 /-- The options object stack `s` of a transport reads. -/
 def Wiring.optsOf (w : Wiring) : Stack → Option Nat
